@@ -372,7 +372,7 @@ def shard(ctx):
 
     rnds = []
     total = int(os.environ.get("VF_C37_TOTAL", "0"))  # smaller runs while developing / for mutation trials on a busy machine
-    n = max(1, total // ctx.n) if total else ctx.per_shard(3000, 120000)
+    n = max(1, total // ctx.n) if total else ctx.per_shard(1400, 120000)
     # every Random object is seeded by a Hypothesis draw, so the run is a function of VERIF_SEED
     ctx.hyp(st.randoms(use_true_random=True), rnds.append, n, "recipes")
     # cases are executed outside Hypothesis: require/enable_readers call inspect.stack(), which is slow under Hypothesis' deep stacks
